@@ -525,6 +525,22 @@ func (c05) Gen(tier string, seed int64, emit func([]Ev)) {
 		s := rndSig(r)
 		seeds["scte35.NewSCTE35"] = append(seeds["scte35.NewSCTE35"], append([]byte{0}, s.section()...))
 	}
+	// signals with the structure the stream-switch getter looks for (delivery restricted, a two-entry MID: an ADI entry
+	// "BLACKOUT:<id>" and an ADS entry naming the license rotation) and their near misses, each a well-formed section
+	for _, adi := range []string{"BLACKOUT:abc", "BLACKOUT:", "BLACKOUT", "BLACKOU", "B", "", "BLACKOUT;x", "blackout:abc", "BLACKOUT:" + string(rndBytes(r, 40))} {
+		for _, ads := range []string{"comcast:linear:licenserotation", "comcast:linear:licenserotatio", "", "comcast:linear:licenserotation:x"} {
+			for _, n := range []int{2, 1, 3} {
+				if n != 2 && (len(adi)+len(ads))%3 != 0 {
+					continue
+				}
+				d := rndSeg(r)
+				d.Cancel, d.Dnr, d.UpidType, d.Upid, d.Comps, d.ProgSeg = false, false, 0x0d, nil, nil, true
+				d.Mid = []absMid{{Type: 9, Upid: []byte(adi)}, {Type: 14, Upid: []byte(ads)}, {Type: 9, Upid: []byte("x")}}[:n]
+				sg := absSig{TableId: 0xfc, Tier: 0xfff, Cmd: absCmd{Kind: "time", Spec: true, Pts: rnd33(r)}, Descs: []absSDesc{d}}
+				one("scte35.NewSCTE35", append([]byte{0}, sg.section()...), r.Intn(1<<16), "vss-like")
+			}
+		}
+	}
 	seeds["psi.accessors"] = seeds["psi.NewPMT"]
 	seeds["psi.PmtAccumulatorDoneFunc"] = seeds["psi.NewPMT"]
 	seeds["psi.ExtractCRC"] = seeds["psi.NewPMT"]
